@@ -119,6 +119,19 @@ fn main() {
             }
             0
         }
+        "dump-run" => {
+            // dump-run <id> <tier> <run>: the outcome of one run as JSON (debugging aid)
+            let tier = if args.get(3).map(|s| s.as_str()) == Some("thorough") { Tier::Thorough } else { Tier::Quick };
+            let run: u64 = args.get(4).and_then(|s| s.parse().ok()).unwrap_or(0);
+            match props::runner(&args[2], tier, seed_from_env()) {
+                Some((_, f)) => {
+                    let b = isolate::isolated(|| f(run).to_bytes(), isolate::run_timeout_s()).unwrap_or_default();
+                    println!("{}", String::from_utf8_lossy(&b));
+                    0
+                }
+                None => 2,
+            }
+        }
         "clock-test" => {
             // does the harness's clock_gettime stand in front of std's Instant?
             let t0 = std::time::Instant::now();
